@@ -23,7 +23,7 @@ static void op_iter(int nt, char **t) {
     hfree(b);
 }
 
-/* tagops <kind> <op>...   A:<num>:<hexbody>  R:<num>  S:<hexssid>  C:<ch>  K:<num>
+/* tagops <kind> <op>...   A:<num>:<hexbody>  D:<num>:<k>  R:<num>  S:<hexssid>  C:<ch>  K:<num>
  * after every op: ret,len,bytes */
 static void op_tagops(int nt, char **t) {
     struct libwifi_beacon bc; struct libwifi_probe_resp pr; struct libwifi_assoc_resp ar; struct libwifi_reassoc_resp rr;
@@ -42,6 +42,21 @@ static void op_tagops(int nt, char **t) {
             size_t n; unsigned char *b = hexbuf(c2 + 1, &n);
             LIB(r = libwifi_quick_add_tag(tags, num, b, n));
             hfree(b);
+        } else if (o[0] == 'D') {
+            /* D:<num>:<k>: add, under number num, the body of the k-th element of THIS list, handed over as a pointer INTO the list
+               (the caller's data aliases the block the library is about to reallocate); no k-th element: an empty body */
+            char *c2 = strchr(o + 2, ':');
+            *c2 = 0;
+            int num = (int) tok_ll(o + 2);
+            long k = (long) tok_ll(c2 + 1);
+            size_t off = 0, bl = 0; const unsigned char *bp = (const unsigned char *) "";
+            while (off + 2 <= tags->length) {
+                size_t l = tags->parameters[off + 1];
+                if (off + 2 + l > tags->length) break;
+                if (k-- == 0) { bp = tags->parameters + off + 2; bl = l; break; }
+                off += 2 + l;
+            }
+            LIB(r = libwifi_quick_add_tag(tags, num, bp, bl));
         } else if (o[0] == 'R') {
             LIB(r = libwifi_remove_tag(tags, (int) tok_ll(o + 2)));
         } else if (o[0] == 'K') {
